@@ -9,6 +9,8 @@ pub struct Tracer {
     blobs_out: BufWriter<File>,
     index: HashMap<(u8, Vec<u8>), usize>,
     pub events: usize,
+    /// distinct frames the client has written so far (reflection attacks replay them to the client)
+    pub client_frames: Vec<Vec<u8>>,
 }
 
 impl Tracer {
@@ -18,6 +20,7 @@ impl Tracer {
             blobs_out: BufWriter::new(File::create(blobs_path).expect("blob file")),
             index: HashMap::new(),
             events: 0,
+            client_frames: Vec::new(),
         }
     }
     /// side: b'c' client frame, b's' server frame; returns the 1-based blob id
@@ -27,6 +30,7 @@ impl Tracer {
         }
         let id = self.index.len() + 1;
         self.index.insert((side, bytes.to_vec()), id);
+        if side == b'c' { self.client_frames.push(bytes.to_vec()); }
         let v = json!({"id": id, "side": (side as char).to_string(), "b": bytes});
         writeln!(self.blobs_out, "{}", v).unwrap();
         id
